@@ -112,6 +112,35 @@ Theorem C02_commit_index_has_quorum : forall ms c, commit_index ms = Some c ->
 Proof. exact commit_index_has_quorum. Qed.
 Print Assumptions C02_commit_index_has_quorum.
 
+(* (9) the commit index: commitTo never decreases it; raftLog.maybeCommit(maxIndex, term) moves it only
+       to an index above it whose entry carries exactly that term (the leader passes its current term:
+       entries of earlier terms are never committed by counting replicas) *)
+Theorem C02_commit_to_monotone : forall l c l', l_commit_to l c = Ok l' ->
+  l_committed l <= l_committed l' /\ (l_committed l' = l_committed l \/ l_committed l' = c) /\
+  l_applied l' = l_applied l /\ l_u l' = l_u l.
+Proof. exact commit_to_monotone. Qed.
+Print Assumptions C02_commit_to_monotone.
+
+Theorem C02_maybe_commit_current_term_only : forall l mi t b l', l_maybe_commit l mi t = Ok (b, l') ->
+  (b = true -> l_committed l < mi /\ l_committed l' = mi /\
+               (term_of (l_term l mi) = Ok t \/ (term_of (l_term l mi) = Err ErrCompacted /\ t = 0))) /\
+  (b = false -> l_committed l' = l_committed l) /\
+  l_applied l' = l_applied l /\ l_u l' = l_u l.
+Proof. exact maybe_commit_current_term_only. Qed.
+Print Assumptions C02_maybe_commit_current_term_only.
+
+(* (10) raftLog.restore (snapshot from the leader): commit index = snapshot index, nothing unstable but the
+        snapshot, first index right after it, and the term at the snapshot index is the snapshot's *)
+Theorem C02_restore_spec : forall l m off si st,
+  l_st l = SMem m -> wf_ms m -> ms_offset m = Ok off ->
+  let l' := l_restore l si st in
+  wf_mlog l' m off /\ l_committed l' = si /\ l_applied l' = l_applied l /\
+  mfirst l' off = si + 1 /\ mlast l' m off = si /\
+  u_ents (l_u l') = [] /\ u_snap (l_u l') = Some (si, st) /\
+  term_of (l_term l' si) = Ok st.
+Proof. exact restore_spec. Qed.
+Print Assumptions C02_restore_spec.
+
 (* ====================================================================================== *)
 (* The property over all schedules, on the abstract protocol of coq/RaftAbs (Model.v: per-node term /
    vote / role / log / commit / configuration, the network as grant, ack and campaign records, crash and
